@@ -15,6 +15,7 @@
 import SqlglotModel.Proofs.ParseGen
 import SqlglotModel.Proofs.TimeFmt
 import SqlglotModel.Generated.C01
+import SqlglotModel.Model.Engine
 
 namespace SqlglotModel.Properties.C01
 open SqlglotModel.Expr SqlglotModel.Parse SqlglotModel.Gen SqlglotModel.ParseGen SqlglotModel.Generated.C01
@@ -144,6 +145,47 @@ theorem bitwisenot_glue_witness :
     sql { baseTables with bnotGuard := .none } (.bnot (.bnot (.col [("a", false)]))) = "~~a" ∧
     sql baseTables (.bnot (.bnot (.col [("a", false)]))) = "~ ~a" ∧
     sql baseTables (.neg (.neg (.col [("a", false)]))) = "- -a" := by decide +kernel
+
+/-! ### Athena: the tokenizer-side and the generator-side engine decision -/
+
+/-- FINITE TABLE, decided completely: on every enumerated statement shape the model's two predicates give what the
+    real `_tokenize_as_hive` / `_generate_as_hive` give on the shape's sample statement (re-evaluated every run) -/
+theorem athena_engine_model_matches_source :
+    ∀ r ∈ athenaShapes, Engine.tokHive r.2.1 = r.2.2.1 ∧ Engine.genHive r.2.1 = r.2.2.2 := by decide +kernel
+
+/-- for EVERY `CREATE [OR REPLACE] TABLE … AS <query>` shape — plain SELECT, set operation, parenthesised query, WITH,
+    SELECT over a subquery; with or without another SELECT elsewhere — both sides pick the same engine (Trino) -/
+theorem athena_engine_choice_agrees (s : Engine.Shape) (h1 : s.first = .create) (h2 : s.kind = .table)
+    (hb : Engine.bodyIsQuery s.body = true) : Engine.tokHive s = Engine.genHive s ∧ Engine.genHive s = false := by
+  obtain ⟨f, k, o, b, n⟩ := s
+  simp only at h1 h2 hb
+  subst h1 h2
+  cases b <;> cases o <;> cases n <;> simp_all [Engine.tokHive, Engine.genHive, Engine.genHiveWith, Engine.hasSelectToken,
+    Engine.bodyPasses, Engine.bodyIsQuery]
+
+example : Engine.bodyIsQuery (Engine.Shape.mk .create .table false .setop false).body = true := rfl
+
+/-- the same obligation directly on the data extracted from the source: every enumerated CTAS-over-a-query sample is
+    tokenized and generated by the same engine (a generator-side guard narrower than the tokenizer's breaks the build) -/
+theorem generated_athena_ctas_engines_agree :
+    ∀ r ∈ athenaShapes, r.2.1.first = .create → r.2.1.kind = .table → Engine.bodyIsQuery r.2.1.body = true →
+      r.2.2.1 = r.2.2.2 := by decide +kernel
+
+/-- KNOWN clean-tree mismatches of the two decisions (statements printed by one engine and re-read by the other):
+    a non-CTAS CREATE TABLE containing a SELECT token (tokenizer: Trino, generator: Hive) and
+    `CREATE OR REPLACE VIEW … AS VALUES …` (tokenizer: Hive — the second token is OR and there is no SELECT —, generator: Trino) -/
+theorem athena_engine_mismatch_witness :
+    Engine.tokHive ⟨.create, .table, false, .none, true⟩ = false ∧ Engine.genHive ⟨.create, .table, false, .none, true⟩ = true ∧
+    Engine.tokHive ⟨.create, .view, true, .values, false⟩ = true ∧ Engine.genHive ⟨.create, .view, true, .values, false⟩ = false := by
+  decide
+
+/-- if the generator's guard accepted only `exp.Select` bodies, a CTAS over a set operation or a parenthesised query
+    would be read by Trino and printed by Hive -/
+theorem athena_select_only_variant_witness :
+    Engine.tokHive ⟨.create, .table, false, .setop, false⟩ = false ∧
+    Engine.genHiveWith .selectOnly ⟨.create, .table, false, .setop, false⟩ = true ∧
+    Engine.genHiveWith .selectOnly ⟨.create, .table, false, .paren, false⟩ = true ∧
+    Engine.genHiveWith .selectOnly ⟨.create, .table, false, .select, false⟩ = false := by decide
 
 /-- `format_time` returns its input when no character of it starts a mapping key -/
 theorem format_time_no_key_start (m : List (List Char × List Char)) (s : List Char) (hs : s ≠ [])
